@@ -74,7 +74,46 @@ class UnitsStub:
 
 @contextlib.contextmanager
 def patched(mod, **globs):
+    """install contract stubs as module globals for the duration of a run.  When the replaced value is a function or a class,
+    every other reference to that same object that the package holds at module level -- a name bound by `from x import f` in
+    another cij module, an entry of a module-level dispatch dict / list, a functools.partial around it -- is redirected too:
+    references bound earlier would otherwise bypass the stub."""
+    import functools as _ft, sys as _sys, types as _types
     old = {k: mod.__dict__.get(k, _MISSING) for k in globs}
+    undo = []
+    targets = {id(v): globs[k] for k, v in old.items()
+               if isinstance(v, (_types.FunctionType, type)) and v is not globs[k]}
+    originals = {id(v): v for v in old.values() if id(v) in targets}
+
+    def redirect(x):
+        if id(x) in targets and x is originals[id(x)]:
+            return targets[id(x)], True
+        if isinstance(x, _ft.partial) and id(x.func) in targets and x.func is originals[id(x.func)]:
+            return _ft.partial(targets[id(x.func)], *x.args, **x.keywords), True
+        return x, False
+    if targets:
+        for name, m in list(_sys.modules.items()):
+            if m is None or not (name == "cij" or name.startswith("cij.")) or not hasattr(m, "__dict__"):
+                continue
+            for gname, gval in list(m.__dict__.items()):
+                if m is mod and gname in globs:
+                    continue
+                new, hit = redirect(gval)
+                if hit:
+                    undo.append((m.__dict__, gname, gval))
+                    m.__dict__[gname] = new
+                elif isinstance(gval, dict) and not gname.startswith("__"):
+                    for k2, v2 in list(gval.items()):
+                        new, hit = redirect(v2)
+                        if hit:
+                            undo.append((gval, k2, v2))
+                            gval[k2] = new
+                elif isinstance(gval, list):
+                    for i2, v2 in enumerate(list(gval)):
+                        new, hit = redirect(v2)
+                        if hit:
+                            undo.append((gval, i2, v2))
+                            gval[i2] = new
     mod.__dict__.update(globs)
     try:
         yield
@@ -84,6 +123,8 @@ def patched(mod, **globs):
                 mod.__dict__.pop(k, None)
             else:
                 mod.__dict__[k] = v
+        for container, key, val in reversed(undo):
+            container[key] = val
 
 
 _MISSING = object()
